@@ -299,8 +299,34 @@ impl<'a> GeneratorState<'a> {
         };
         if let ExprType::Immediate(value) = right {
             if self.acc_in_use { self.sasm(PHA)?; }
+            // Memory with separate read and write ports can't be shifted in place
+            let split_ports = matches!(v.memory, VariableMemory::Superchip | VariableMemory::MemoryOnChip(_));
+            let signed = v.signed;
             for _ in 0..*value {
-                if let Operation::Bls(_) = op {
+                if split_ports {
+                    if let Operation::Bls(_) = op {
+                        self.asm(LDA, left, pos, false)?;
+                        self.asm(ASL, &ExprType::Nothing, pos, false)?;
+                        self.asm(STA, left, pos, false)?;
+                        self.asm(LDA, left, pos, true)?;
+                        self.asm(ROL, &ExprType::Nothing, pos, false)?;
+                        self.asm(STA, left, pos, true)?;
+                    } else {
+                        self.asm(LDA, left, pos, true)?;
+                        if signed {
+                            self.asm(ASL, &ExprType::Nothing, pos, false)?;
+                            self.asm(LDA, left, pos, true)?;
+                            self.asm(ROR, &ExprType::Nothing, pos, false)?;
+                        } else {
+                            self.asm(LSR, &ExprType::Nothing, pos, false)?;
+                        }
+                        self.asm(STA, left, pos, true)?;
+                        self.asm(LDA, left, pos, false)?;
+                        self.asm(ROR, &ExprType::Nothing, pos, false)?;
+                        self.asm(STA, left, pos, false)?;
+                    }
+                    self.flags = FlagsState::Unknown;
+                } else if let Operation::Bls(_) = op {
                     self.asm(ASL, left, pos, false)?;
                     self.asm(ROL, left, pos, true)?;
                 } else if v.signed {
